@@ -27,7 +27,7 @@ META = {
 META['explanation'] += ' ' + 'R6: header line spellings over the ParserText model - name case, SP / HTAB runs after the colon and before the CRLF, for both line parsers. R7: SPF network composer. R8: SPF mechanism names (with and without qualifier), version and modifier names over case patterns, and the term loop over 0..3 trailing spaces.'
 META['explanation'] += ' ' + "R10: media type parser evaluated on case patterns. R11: string enumerations whose tokens the specification matches case-insensitively (reviewed table with citations in sa/specs/text.json): the class's _code_eq is evaluated."
 
-META['explanation'] += ' ' + 'R12: quoted components evaluated through the real compose and _parse (quoted and unquoted spelling, base64 with the real codec). R13: the JSON valued fields write every member they hold, false and zero included (evaluated composer).'
+META['explanation'] += ' ' + 'R12: quoted components evaluated through the real compose and _parse (quoted and unquoted spelling, base64 with the real codec). R13: the JSON valued fields write every member they hold, false and zero included (evaluated composer). R14: no parsed sequence rebuilt from a mapping keyed by its items (shared with C10.R15).'
 
 META['explanation'] += ' ' + 'R8 also: a term of another mechanism is declined with InvalidType whatever its length and qualifier.'
 HERE = os.path.dirname(os.path.dirname(os.path.abspath(__file__)))
@@ -236,6 +236,11 @@ def check(ctx, report):
     token_enums_case(ctx, report, spec)
     quoted_components(ctx, report)
     json_fields_composer(ctx, report)
+    # a policy / list whose result is rebuilt from a mapping keyed by (a spelling of) the item name depends on repetition and on
+    # the letter case of the key (rule shared with C10.R15)
+    from .c10 import parsed_sequences_kept
+    parsed_sequences_kept(ctx, report, RULE='C18.R14',
+                          title='parsers of header and record values hand on every element they read: no result rebuilt from a mapping keyed by the element names as spelled')
     report.floor('C18.R1', 24, 'named components')
 
 
